@@ -448,7 +448,7 @@ def _(ctx, c):
         factor = S(c["factor"])
     else:
         F = R.CS.aux(c, gen.arr_F(fshape, c["factor"]).copy(order="F"))
-        factor = F if c["fkind"] == "ndarray" else ttb.tensor(F, tuple(fshape))
+        factor = F if c["fkind"] == "ndarray" else ttb.tensor(F.toarray() if hasattr(F, "toarray") else F, tuple(fshape))
     ctx.label("factor-" + c["fkind"])
     d = R.as_form(c["dims"], c["form"])
     return {"self": X, "factor": factor, "dims": d}, lambda: X.scale(factor, d)
